@@ -193,6 +193,27 @@ CHECKS = {
              'workflows; verdict = relation between two real outputs, the spec supplies pairs and which must differ (controls).',
         note='JSON literals with two keys equal modulo case are outside the universe; permission scopes / service ids are '
              'notes only (not listed kinds)'),
+    'C05': dict(
+        category='model_checking', design_ref='5 (C05), 3.2 Scope/Visitor, A.2',
+        technique='TLA+ spec Scope.tla (declarative InScope per A.2 vs. the visitor pass as a state machine with the rule state '
+                  'records updated where the code updates them, every job order) checked by TLC; every generated (shape, site, '
+                  'reference) vector rendered in every textual job permutation and linted, presence/absence and position of the '
+                  'undefined-reference diagnostic compared with the prediction',
+        text='TLC proves ScopeAgrees/EntryClean/AllSitesChecked on all shapes of the bounded universes (<= 3 jobs, <= 3 steps, '
+             'every needs graph, matrix rows x include x exclude, inputs/secrets combinations); 110 k predicted verdicts are '
+             'replayed against the real linter in quick, 1.3 M in thorough.',
+        note='reusable-workflow jobs are remote only; a job never needs itself; references wrapped in toJSON(); refined A.2 '
+             'reading for expression step ids (a literally known id keeps its property set)'),
+    'C09': dict(
+        category='model_checking', design_ref='5 (C09), 3.2 Visitor, Compose',
+        technique='TLA+ specs Scope.tla (EntryClean: all per-job rule state initial at every JobPre, every job order) and '
+                  'Compose.tla (generator of predecessor x subject compositions at job/step/expression level) checked/enumerated '
+                  'by TLC; each composition linted and compared with the reduced workflow: the subject must get the same '
+                  'multiset of diagnostics (relation between two real outputs); stand-in shellcheck/pyflakes make shell state observable',
+        text='Catalogue of 35 job, 16 step and 19 expression constructs that bear rule state; 5 k (quick) / 194 k (thorough) '
+             'compositions incl. every insertion position of the subject; leaks show as a difference between two real runs.',
+        note='reduced workflow keeps the transitive needs closure; positions quoted inside messages are masked as offsets; '
+             'callees well-formed (first-reporter attribution belongs to C02/C10)'),
 }
 
 REASON_NOT_YET = 'check not built yet in this revision of /verif (planned, see DESIGN.md section 5); not claimed'
